@@ -265,10 +265,13 @@ class Entry:
 
 
 class Type:
-    __slots__ = ("name", "entries", "enc", "trim", "layout")
+    """entry_at: {entry index: byte offset inside the entry area} -- the entry area is zero-padded so that this entry
+    starts exactly there (to reach the large end of the offset fields without tens of thousands of real entries)."""
+    __slots__ = ("name", "entries", "enc", "trim", "layout", "entry_at")
 
-    def __init__(self, name, entries=(), enc="dense", trim=False, layout="index"):
+    def __init__(self, name, entries=(), enc="dense", trim=False, layout="index", entry_at=None):
         self.name, self.entries, self.enc, self.trim, self.layout = name, list(entries), enc, trim, layout
+        self.entry_at = dict(entry_at or {})
 
     def configs(self):
         """Configurations in first-appearance order."""
@@ -385,7 +388,7 @@ def _entry_bytes(ev, flags, key_idx, pool):
     return b
 
 
-def type_chunk(type_id, cfg, enc, slots, layout="index"):
+def type_chunk(type_id, cfg, enc, slots, layout="index", entry_at=None):
     """slots: list (index = entry index) of entry bytes or None (hole); layout: placement order in the entry area."""
     cfgb = cfg.pack()
     header_size = 8 + 12 + len(cfgb)
@@ -399,6 +402,9 @@ def type_chunk(type_id, cfg, enc, slots, layout="index"):
     elif layout != "index":
         raise ValueError(layout)
     for i in order:
+        if entry_at and i in entry_at:
+            assert entry_at[i] % 4 == 0 and entry_at[i] >= len(blob), "entry_at must not move an entry backwards"
+            blob += b"\0" * (entry_at[i] - len(blob))
         assert len(blob) % 4 == 0
         offsets[i] = len(blob)
         blob += slots[i]
@@ -409,11 +415,12 @@ def type_chunk(type_id, cfg, enc, slots, layout="index"):
     elif enc == "off16":
         flags = FLAG_OFFSET16
         arr = b"".join(struct.pack("<H", NO_ENTRY16 if o is None else o // 4) for o in offsets)
-        assert all(o is None or o // 4 < NO_ENTRY16 for o in offsets)
+        assert all(o is None or o // 4 < NO_ENTRY16 for o in offsets)      # 0xFFFF means 'no entry' here
         count = len(offsets)
     elif enc == "sparse":
         flags = FLAG_SPARSE
         present = [(i, o) for i, o in enumerate(offsets) if o is not None]
+        assert all(o // 4 <= 0xFFFF for _i, o in present)                      # no 'no entry' marker: 0xFFFF is an offset
         arr = b"".join(struct.pack("<HH", i, o // 4) for i, o in present)      # sorted by idx
         count = len(present)
     else:
@@ -470,7 +477,7 @@ def package_chunk(pkg, pool):
             if t.trim:
                 while slots and slots[-1] is None:
                     slots.pop()
-            chunks.append(type_chunk(type_id, cfg, t.enc_of(cfg), slots, t.layout))
+            chunks.append(type_chunk(type_id, cfg, t.enc_of(cfg), slots, t.layout, t.entry_at))
     if pkg.chunk_order == "grouped":
         chunks = [c for sp, cs in zip(specs, per_type) for c in [sp] + cs]
     elif pkg.chunk_order == "specs-first":
